@@ -130,12 +130,44 @@ def tree_names(tree):
     return sorted({p.rsplit("/", 1)[1] for p, _ in gen.tree_paths(tree) if p != "/"})
 
 
+def add_prefix_trap(rng, tree):
+    """Give some directory a sub-directory D with contents plus siblings whose names merely EXTEND D's name
+    (D.rs, D-x/..., D2, Dñ): an exclusion of D must drop D's contents and none of those.  Returns a pattern for D."""
+    def f(data):
+        return {"k": "f", "data": data.hex(), "mode": 0o644, "mtime": 10**18}
+
+    def d(children):
+        return {"k": "d", "mode": 0o755, "mtime": 10**18, "c": children}
+    node, path = tree, ""
+    for _ in range(rng.randrange(0, 3)):
+        subs = [(k, v) for k, v in node["c"].items() if v["k"] == "d"]
+        if not subs:
+            break
+        k, node = rng.choice(subs)
+        path += "/" + k
+    base = rng.choice(["build", "t", "ñ", "a"])
+    for k in [k for k in node["c"] if k.startswith(base)]:
+        del node["c"][k]
+    node["c"][base] = d({"out.o": f(b"o"), "deep": d({"more": f(b"m")})})
+    for suf in rng.sample([".rs", "-x", "2", "ñ", " y", "~", "!"], 3):
+        if rng.random() < 0.5:
+            node["c"][base + suf] = f(b"sib" + suf.encode())
+        else:
+            node["c"][base + suf] = d({"in": f(b"in" + suf.encode())})
+    return rng.choice([path + "/" + base, base, "**/" + base])
+
+
 def end_to_end(ctx, n):
     cases = []
     for t in range(n):
         tree = gen.rand_tree(ctx.rng, depth=ctx.rng.choice([2, 3, 3]), fanout=4, neg_frac=False, owners=False)
+        trap = None
+        if t % 3 == 0:
+            trap = add_prefix_trap(ctx.rng, tree)
         names = tree_names(tree)
         pats = []
+        if trap is not None:
+            pats.append(trap)
         for _ in range(ctx.rng.choice([1, 1, 2, 3])):
             for _try in range(20):
                 p = rand_pattern(ctx.rng, [x for x in names if not set(x) & set("*?[]{},\\!\n")] or LITS, weird=False)
